@@ -5,21 +5,28 @@
 EXTENDS ConstGen, TLC
 
 CONSTANTS NsByte,      \* data lengths explored with byte-wide words
+          NsHalf,      \* data lengths explored with 2-byte words
           NsWide,      \* data lengths explored with 4-byte words (both byte orders)
-          ExtraLen     \* max_length ranges over 0 .. data length + ExtraLen
+          PortMax,     \* largest values of the max_length port explored (2^W - 1: below and above the data lengths)
+          ExtraLen     \* max_length ranges over 0 .. min(data length + ExtraLen, port maximum)
 
 DataOf(n) == [i \in 1..n |-> (i * 37 + 11) % 256]          \* pairwise distinct bytes for n <= 9
 
+Shapes == {[n |-> n, w |-> 1, big |-> FALSE] : n \in NsByte}
+          \cup {[n |-> n, w |-> 2, big |-> FALSE] : n \in NsHalf}
+          \cup {[n |-> n, w |-> 4, big |-> b] : n \in NsWide, b \in BOOLEAN}
 MCConfigs ==
-    {[data |-> DataOf(n), w |-> 1, big |-> FALSE, haslen |-> h, olen |-> h] : n \in NsByte, h \in BOOLEAN}
-    \cup {[data |-> DataOf(n), w |-> 4, big |-> b, haslen |-> h, olen |-> h] :
-              n \in NsWide, b \in BOOLEAN, h \in BOOLEAN}
+    {[data |-> DataOf(s.n), w |-> s.w, big |-> s.big, haslen |-> TRUE, mlmax |-> pm, olen |-> TRUE] :
+         s \in Shapes, pm \in PortMax}
+    \cup {[data |-> DataOf(s.n), w |-> s.w, big |-> s.big, haslen |-> FALSE, mlmax |-> s.n, olen |-> FALSE] :
+              s \in Shapes}
 
 MCInit == Init0 /\ cfg \in MCConfigs
 
 \* Env: every legal input of the cycle
 Requests == {r \in [sp : 0..(NWordsTotal(cfg) - 1),
-                    ml : IF cfg.haslen THEN 0..(NBytes(cfg) + ExtraLen) ELSE {NBytes(cfg)}] : LegalReq(cfg, r)}
+                    ml : IF cfg.haslen THEN 0..Min(NBytes(cfg) + ExtraLen, cfg.mlmax) ELSE {NBytes(cfg)}] :
+                 LegalReq(cfg, r)}
 Held(rd)    == [start |-> FALSE, sp |-> req.sp, ml |-> req.ml, ready |-> rd]
 QuietInputs == {Held(rd) : rd \in BOOLEAN}
 StartInputs == {[start |-> TRUE, sp |-> r.sp, ml |-> r.ml, ready |-> rd] : r \in Requests, rd \in BOOLEAN}
